@@ -2082,6 +2082,29 @@ pub fn jobs(tier: &str) -> Vec<Job> {
             );
             add(spec.clone(), "quarters", singles(&q), 3, true);
         }
+        // amounts "k units + a fraction" with k >= 2: the only requests whose tight placement
+        // drains a whole group and still carries a fraction over to the next one
+        let uf = entries_for(
+            0,
+            size,
+            &[5000, 10000, 15000, 25000, 35000, 45000],
+            &[Pol::Compact, Pol::Tight, Pol::TightStrict, Pol::Scatter],
+            false,
+            false,
+        );
+        add(spec.clone(), "units+fraction spanning groups", singles(&uf), 3, true);
+    }
+    {
+        let spec = single("groups[3,3]", groups("cpus", &[3, 3]));
+        let uf = entries_for(
+            0,
+            60000,
+            &[5000, 10000, 25000, 35000],
+            &[Pol::Compact, Pol::Tight, Pol::TightStrict, Pol::Scatter],
+            false,
+            false,
+        );
+        add(spec, "units+fraction spanning groups", singles(&uf), 3, true);
     }
 
     // ---- two grouped resources, without and with coupling ----
@@ -2261,7 +2284,7 @@ fn replay_payload(f: &Found) -> Value {
 fn confirm_in_subprocess(exe: &std::path::Path, f: &Found, tier: &str) -> bool {
     let scratch = common::Scratch::new("alloc-confirm");
     let file = scratch.path.join("replay.json");
-    if std::fs::write(&file, serde_json::to_string(&json!({"replay": replay_payload(f)})).unwrap()).is_err() {
+    if std::fs::write(&file, serde_json::to_string(&json!({"engine": ENGINE, "replay": replay_payload(f)})).unwrap()).is_err() {
         return false;
     }
     let spawn = || {
